@@ -79,7 +79,7 @@ def case(ctx, i, tier):
     if r.random() < 0.4:
         a = dY[r.randint(n // 3, n // 2)]
         folds = {"training-set": [a.to_pydatetime(), dY[-1].to_pydatetime()]}
-    rate = pd.Series(rng.uniform(0, 0.04, n), dY, name="rr") if r.random() < 0.5 else None
+    rate = pd.Series(rng.uniform(-0.01, 0.04, n), dY, name="rr") if r.random() < 0.5 else None   # negative fixings are valid rates
     sd = r.choice([0, 1])
     ctx.sample = {"rows_Y": n, "rows_X": len(X), "freq": freq, "x_offset_days": offx, "features": nf, "assets": ny,
                   "window": window, "stride": stride, "transformer": tf, "clip": clip, "spread": SP, "calendar": cal,
